@@ -1,1 +1,4 @@
-import Milhouse.Model.Basic
+import Milhouse.Model.Ssz
+import Milhouse.Spec.Merkle
+import Milhouse.Exec.Driver
+import Milhouse.Proofs
